@@ -4,6 +4,7 @@ package pubsub
 
 import (
 	"context"
+	"time"
 
 	"github.com/libp2p/go-libp2p/core/peer"
 )
@@ -36,7 +37,18 @@ func vpH_C14_api_after_shutdown() {
 	ctx := context.Background()
 	// calls issued after cancellation: each returns (error or benign result) instead of blocking forever
 	var err error
-	switch vpInt("api", 0, 14) {
+	switch vpInt("api", 0, 16) {
+	case 15:
+		// Publish with a readiness predicate and no discovery service polls the event loop: the poll must notice the shutdown
+		// although the caller's own context never ends
+		notReady := func(rt PubSubRouter, topic string) (bool, error) { return false, nil }
+		vpAssert(!vpBlocks(func() { err = t.Publish(ctx, []byte("x"), WithReadiness(notReady)) }), "Publish WithReadiness (no discovery) returns after shutdown")
+		vpAssert(err != nil, "Publish WithReadiness reports the shutdown")
+	case 16:
+		notReady := func(rt PubSubRouter, topic string) (bool, error) { return false, nil }
+		b := &MessageBatch{}
+		vpAssert(!vpBlocks(func() { err = t.AddToBatch(ctx, b, []byte("x"), WithReadiness(notReady)) }), "AddToBatch WithReadiness (no discovery) returns after shutdown")
+		vpAssert(err != nil, "AddToBatch WithReadiness reports the shutdown")
 	case 14:
 		vpAssert(!vpBlocks(func() { relayCancel() }), "a relay cancel function returns after shutdown")
 		vpAssert(!vpBlocks(func() { relayCancel() }), "a relay cancel function may be called twice")
@@ -109,4 +121,67 @@ func vpH_C14_publish_buffer_full() {
 	// message to the event loop through the same hand-off: it must return as well
 	vpAssert(!vpBlocks(func() { err = ps.val.sendMsgBlocking(vpMkMsg("self", "1", vpT0)) }), "the hand-off of a validated message to the event loop returns after shutdown even when its buffer is full")
 	vpCover(true, "ran")
+}
+
+
+// retry_goroutine_exits: an interest announcement hit a full outbound queue, so the library started an announce-retry
+// goroutine (sleeping up to a second); the context is cancelled and the event loop exits BEFORE that goroutine wakes up:
+// it must still terminate (nobody receives on the eval channel any more) - the "every library goroutine exits" clause for
+// the one goroutine the library starts outside its constructors.
+func vpH_C14_retry_goroutine_exits() {
+	nd := vpNewNode("self", vpNodeCfg{router: "floodsub", queue: 1})
+	ps := nd.ps
+	q := nd.vpAddPeer("obs", FloodSubID, true)
+	q.Push(&RPC{}, false) // the queue is full when interest is announced
+	if vpBool("interest_is_a_relay") {
+		ps.handleAddRelay(&addRelayReq{topic: vpT0, resp: make(chan RelayCancelFunc, 1)})
+	} else {
+		sub := &Subscription{topic: vpT0, ch: make(chan *Message, 1), ctx: ps.ctx}
+		ps.handleAddSubscription(&addSubReq{sub: sub, resp: make(chan *Subscription, 1)})
+	}
+	nd.cancel()
+	exited := !vpBlocks(func() { ps.processLoop(ps.ctx) })
+	vpAssert(exited, "the event loop exits once the context is cancelled")
+	time.Sleep(2 * time.Second) // (the retry goroutine's jitter sleep is over)
+	vpAssert(!vpFireAllBlocked(), "the announce-retry goroutine terminates although the event loop is gone")
+	vpCover(true, "ran")
+}
+
+// publish_in_flight: a Publish / AddToBatch+PublishBatch call that is IN PROGRESS when the context is cancelled: the call
+// has passed its last look at the event loop and sits in the application's (synchronous) topic validator at the moment of
+// cancellation — the validator itself performs the shutdown — while the hand-off buffer to the event loop holds a symbolic
+// number of messages up to its capacity of 32. The caller's own context never ends. The call must still return.
+func vpH_C14_publish_in_flight() {
+	vpOpt("unwind", 40)
+	nd := vpNewNode("self", vpNodeCfg{router: "gossipsub"})
+	ps := nd.ps
+	ps.eval = make(chan func(), 4) // (the loop is busy: thunks are accepted but not yet run)
+	t := &Topic{p: ps, topic: vpT0, evtHandlers: map[*TopicEventHandler]struct{}{}}
+	ps.myTopics[vpT0] = t
+	full := vpBool("handoff_buffer_full")
+	for i := 0; i < 32; i++ {
+		if full || i < 31 {
+			ps.sendMsg <- vpMkMsg("self", "0", vpT0)
+		}
+	}
+	v, err := ps.val.makeValidator(&addValReq{topic: vpT0, validate: func(ctx context.Context, p peer.ID, m *Message) ValidationResult {
+		nd.cancel() // shutdown happens while the publication is being validated
+		return ValidationAccept
+	}}, ps.logger)
+	vpAssume(err == nil)
+	ps.val.topicVals[vpT0] = v
+	ctx := context.Background()
+	batch := vpBool("via_batch")
+	if batch {
+		b := &MessageBatch{}
+		vpAssert(!vpBlocks(func() { err = t.AddToBatch(ctx, b, []byte("x")) }), "AddToBatch in progress at the moment of cancellation returns")
+		vpAssert(!vpBlocks(func() { err = ps.PublishBatch(b) }), "PublishBatch after such an AddToBatch returns")
+	} else {
+		vpAssert(!vpBlocks(func() { err = t.Publish(ctx, []byte("x")) }), "a Publish in progress at the moment of cancellation returns although the hand-off buffer is full and the caller's context never ends")
+		if full {
+			vpAssert(err != nil, "it reports the shutdown when the message could not be handed over")
+		}
+	}
+	vpCover(full && !batch, "buffer full, plain Publish")
+	vpCover(!full && batch, "room left, batch")
 }
